@@ -633,26 +633,35 @@ func (t *tr) call(e *ast.CallExpr, en *env, want string) (string, string) {
 	return "", ""
 }
 
-// errExpr translates an expression in an `error` result position.
+// errExpr translates an expression in an `error` result position: nil, or a
+// constructor call, which becomes EErr "<tag>".  The tag is the dotted callee
+// without its final method name (ExpiredTransactionError.Errorf ->
+// "ExpiredTransactionError", errors.IllegalArgumentError.New ->
+// "errors.IllegalArgumentError"); a plain package function keeps its name
+// (errors.New -> "errors.New").  Arguments (message texts) are ignored.
 func (t *tr) errExpr(e ast.Expr) string {
 	e = ast.Unparen(e)
 	if isNil(e) {
 		return "ENil"
 	}
 	if c, ok := e.(*ast.CallExpr); ok {
+		var parts []string
 		f := c.Fun
+	walk:
 		for {
 			switch x := f.(type) {
 			case *ast.SelectorExpr:
+				parts = append([]string{x.Sel.Name}, parts...)
 				f = x.X
-				continue
-			case *ast.CallExpr:
-				f = x.Fun
-				continue
 			case *ast.Ident:
-				return `(EErr "` + x.Name + `")`
+				parts = append([]string{x.Name}, parts...)
+				if len(parts) > 2 || (len(parts) == 2 && !t.isPkgName(x)) {
+					parts = parts[:len(parts)-1]
+				}
+				return `(EErr "` + strings.Join(parts, ".") + `")`
+			default:
+				break walk
 			}
-			break
 		}
 	}
 	failf("%s: error result %s is neither nil nor a constructor call", t.pos(e), types.ExprString(e))
